@@ -9,6 +9,7 @@ import (
 	"fmt"
 	"hash/fnv"
 	"os"
+	"runtime"
 	"runtime/pprof"
 	"sort"
 	"strconv"
@@ -194,7 +195,7 @@ func main() {
 		}
 		var st *core.Stats
 		if sc.Direct != nil {
-			st = sc.Direct(deadline)
+			st = runDirect(sc, deadline)
 		} else {
 			st = core.Explore(core.Options{Name: sc.Name, Bound: sc.Bound, Deadline: deadline, MaxExec: sc.MaxExec, Merge: !sc.NoMerge && !noMerge}, sc.Body, sc.Check)
 		}
@@ -287,6 +288,20 @@ func main() {
 	}
 }
 
+// runDirect runs a self-enumerating scenario; a panic that escapes it (the library panicking
+// where the scenario did not expect it) is a finding about the library, not a harness crash.
+func runDirect(sc *Scenario, deadline time.Time) (st *core.Stats) {
+	defer func() {
+		if r := recover(); r != nil {
+			buf := make([]byte, 4096)
+			buf = buf[:runtime.Stack(buf, false)]
+			st = &core.Stats{ByCost: map[int]int64{}, Outcomes: map[string]int64{"panic": 1}, Executions: 1, Capped: true, CapReason: "scenario abandoned after a panic"}
+			st.Violations = []core.Violation{{Msgs: []string{fmt.Sprintf("panic: %v", r)}, Log: strings.Split(string(buf), "\n")}}
+		}
+	}()
+	return sc.Direct(deadline)
+}
+
 func appendUniq(l []string, s string) []string {
 	for _, x := range l {
 		if x == s {
@@ -375,7 +390,7 @@ func replay(p *Property, name, choices string) int {
 		return 2
 	}
 	if sc.Direct != nil {
-		st := sc.Direct(time.Now().Add(10 * time.Minute))
+		st := runDirect(sc, time.Now().Add(10*time.Minute))
 		for _, v := range st.Violations {
 			fmt.Printf("PROBLEM %s\n", strings.Join(v.Msgs, "; "))
 		}
